@@ -105,6 +105,7 @@ InitState(cfg) ==
    dgSent |-> [e \in E |-> <<>>],        \* ghost: datagrams accepted by send_datagram on e (g values)
    dgGot  |-> [e \in E |-> 0],           \* ghost: index in dgSent[Peer(e)] of the last datagram delivered to e's application
    bindAns |-> <<>>,                     \* ghost: function bind ghost id -> "accept"|"reject"
+   advn   |-> 0,                         \* ghost: messages injected by the adversary so far
    kf     |-> {},                        \* ghost: known design limitations met on this behaviour (see Stale below)
    confused |-> FALSE,                   \* ghost: a frame / notification of an old incarnation acted on a re-used flow id
    obs    |-> NoObs,
@@ -245,7 +246,8 @@ ReadCheck(s, e, h, ch) ==
              \/ /\ ch.w \in DOMAIN s.hnd[Peer(e)]
                 /\ \/ s.hnd[Peer(e)][ch.w].conn # x.conn
                    \/ ch.off # x.roff
-  IN IF bad /\ ~s.confused THEN Flag(s, "C02.Prefix") ELSE s
+  (* a stream opened by the adversary (conn = 0) has no conforming writer to compare with *)
+  IN IF bad /\ ~s.confused /\ x.conn # 0 /\ PeerHandles(s, e, h) # {} THEN Flag(s, "C02.Prefix") ELSE s
 
 (* monitor for C05 evaluated when a read reports end-of-stream *)
 EofCheck(s, e, h) ==
@@ -257,7 +259,7 @@ EofCheck(s, e, h) ==
            /\ \A p \in ps : LET y == s.hnd[Peer(e)][p] IN y.finQ /\ x.roff = y.woff
         \/ /\ x.eof = "reset"
            /\ \A p \in ps : LET y == s.hnd[Peer(e)][p] IN y.st = "dropped" \/ y.closedW
-  IN IF okCause \/ s.confused THEN s ELSE Flag(s, "C05.Eof")
+  IN IF okCause \/ s.confused \/ x.conn = 0 THEN s ELSE Flag(s, "C05.Eof")
 
 RECURSIVE ReadFrom(_, _, _, _)
 ReadFrom(s, e, h, max) ==
@@ -725,6 +727,6 @@ CutSink(s, e) ==
   IF s.sink[e] # "open" THEN {}
   ELSE {Obs([Unhealthy(s) EXCEPT !.sink[e] = "cut"], NoObs)}
 (* an arbitrary message appears on the link towards e (adversary / raw peer) *)
-Inject(s, e, m) == {Obs([Unhealthy(s) EXCEPT !.wire[Peer(e)] = Append(@, m)], NoObs)}
+Inject(s, e, m) == {Obs([Unhealthy(s) EXCEPT !.wire[Peer(e)] = Append(@, m), !.advn = @ + 1], NoObs)}
 
 =============================================================================
